@@ -385,7 +385,7 @@ func permutations(n int) [][]int {
 var c07StateCfg = gen.StateCfg{D: gen.Boundary, JSON: true, Top: true}
 
 func TestC07(t *testing.T) {
-	col := stats.New("C07", "a base rule (generated condition of depth 1-3 and a generated int/float/string value expression written to the rule's own JSON sink, then self-retraction) plus 1-5 near-identical siblings that each differ from the base in exactly one place: a float constant changed at the 7th decimal or by one ulp, sign, exponent, int versus float, a string constant changed by one character (also quote, bracket, arrow), a boolean, one operator, an added or removed negation, operand order, a selector (index, key, field), argument order, a function name, and white-box snapshot-injection siblings (two string arguments versus one argument spelling their separator in the snapshot syntax). Facts come from a boundary pool and are moved between the two constants when the difference is a compared constant. Oracle: FetchMatchingRules membership and the final sink of every rule built together with its siblings (all build orders up to 3 rules, 3 drawn orders above) equal those of the rule built alone; alone also equals the reference. Non-trivial: the siblings' results differ on the drawn facts. Distinct by the rule texts + state seed.")
+	col := stats.New("C07", "a base rule (generated condition of depth 1-3 and a generated int/float/string value expression written to the rule's own JSON sink, then self-retraction) plus 1-5 near-identical siblings that each differ from the base in exactly one place: a float constant changed at the 7th decimal or by one ulp, sign, exponent, int versus float, a string constant changed by one character (also quote, bracket, arrow), a boolean, one operator, an added or removed negation, operand order, a selector (index, key, field), argument order, a function name, and white-box snapshot-injection siblings (two string arguments versus one argument spelling their separator in the snapshot syntax). Facts come from a boundary pool and are moved between the two constants when the difference is a compared constant. Oracle: FetchMatchingRules membership and the final sink of every rule built together with its siblings (all build orders up to 3 rules, 3 drawn orders above) equal those of the rule built alone; alone also equals the reference. Non-trivial: the siblings' results differ on the drawn facts. Distinct by the rule texts + state seed."+c07BystanderRule)
 	defer col.Flush()
 	paths := gen.AllPaths(c07StateCfg)
 	check(t, 0, budget(4000, 50000), func(rt *rapid.T) {
@@ -489,6 +489,7 @@ func TestC07(t *testing.T) {
 			rt.Fatalf("C07 violated: %s (replay %s)", msg, path)
 		}
 	})
+	c07BystanderFamily(t, col)
 }
 
 func uniq(xs []string) []string {
@@ -506,6 +507,12 @@ func uniq(xs []string) []string {
 
 func init() {
 	replayers["C07"] = func(raw json.RawMessage) error {
+		var fam struct {
+			Family string `json:"family"`
+		}
+		if json.Unmarshal(raw, &fam) == nil && fam.Family == "bystander" {
+			return c07ReplayBystander(raw)
+		}
 		var c c07Case
 		if err := json.Unmarshal(raw, &c); err != nil {
 			return err
